@@ -101,6 +101,73 @@ def check_routing(log: List[dict], meta: Dict[str, Any], expected_client: Option
     return viols, counts
 
 
+def check_nested(log: List[dict], meta: Dict[str, Any], script: str
+                 ) -> Tuple[List[Viol], Dict[str, int]]:
+    """C01 for out-events the component raises while it handles an in-event of the same port
+    (`nest` operations): each arrives exactly once at the same-named event of the user's side
+    of that port - on a multi-client port at the client whose in-event is being handled, who
+    holds the claim - with the arguments intact."""
+    viols: List[Viol] = []
+    counts = {'nested_out_events_armed': 0, 'nested_out_events_raised': 0,
+              'nested_out_events_to_the_claim_holder': 0}
+    counts['nested_out_events_armed'] = sum(1 for ln in script.splitlines()
+                                            if ln.startswith('nest '))
+    mc = meta.get('mc') or {}
+    last_user_call = None
+    idx = 0
+    while idx < len(log):
+        rec = log[idx]
+        if rec['kind'] == 'call' and rec['d'].get('side') == 'user':
+            last_user_call = rec['d']
+        if rec['kind'] != 'nested':
+            idx += 1
+            continue
+        counts['nested_out_events_raised'] += 1
+        port, event = rec['d']['out'].split('/')
+        detail = {'port': port, 'event': event, 'while_handling': rec['d']['in'],
+                  'semantics': meta['mapping'].get(port),
+                  'multiclient': bool(mc and mc.get('port') == port)}
+        call = next((r for r in log[idx + 1:idx + 3] if r['kind'] == 'call'), None)
+        if call is None:
+            viols.append(('nested-out-event-was-not-raised', detail))
+            idx += 1
+            continue
+        stim = call['d']['stim']
+        body = []
+        for r in log[log.index(call) + 1:]:
+            if r['kind'] == 'return' and r['d'].get('stim') == stim:
+                break
+            body.append(r)
+        arrivals = [r['d'] for r in body if r['kind'] == 'arrive' and r['d']['side'] == 'user']
+        if not arrivals:
+            viols.append(('event-not-forwarded', dict(detail, nested=True)))
+        elif len(arrivals) > 1:
+            viols.append(('event-forwarded-more-than-once', dict(detail, nested=True,
+                          arrivals=[(a['port'], a['event'], a.get('client')) for a in arrivals])))
+        else:
+            arr = arrivals[0]
+            if (arr['port'], arr['event']) != (port, event):
+                viols.append(('event-misrouted', dict(detail, nested=True, arrived_port=arr['port'],
+                                                      arrived_event=arr['event'])))
+            elif arr['args'] != call['d']['args']:
+                viols.append(('arguments-altered', dict(detail, nested=True, sent=call['d']['args'],
+                                                        got=arr['args'])))
+            elif detail['multiclient'] and last_user_call is not None:
+                counts['nested_out_events_to_the_claim_holder'] += 1
+                if arr.get('client') != last_user_call.get('client'):
+                    viols.append(('multiclient-out-event-to-wrong-client',
+                                  dict(detail, nested=True, client=arr.get('client'),
+                                       holder=last_user_call.get('client'))))
+        idx += 1
+    if counts['nested_out_events_raised'] < counts['nested_out_events_armed']:
+        viols.append(('event-not-forwarded',
+                      {'nested': True, 'armed': counts['nested_out_events_armed'],
+                       'raised': counts['nested_out_events_raised'],
+                       'what': 'an in-event that was to raise an out-event never reached the '
+                               'component'}))
+    return viols, counts
+
+
 def check_semantics(log: List[dict], meta: Dict[str, Any]) -> Tuple[List[Viol], Dict[str, int]]:
     """C02: configured runtime semantics per port, from sequence numbers and thread context."""
     viols: List[Viol] = []
